@@ -24,6 +24,37 @@ claim("C09",
       "bytes across runs as such, absolute paths leaking into bytes, history independence beyond C16's tag wiring.",
       "static analysis: AST+types classification of map-range loops, sort-key totality table, who-may-call for ambient inputs, package-level state writes")
 
+claim("C15",
+      "Structural necessary conditions decided on every run: who-may-write (only goverter.writeFiles, only os.MkdirAll/os.WriteFile), written path = key of the generated map = "
+      "getOutputDir(converter), constant modes 0644/0755, same-file/different-package rejection by a plain PackageID comparison that dominates every hand-out of a file, "
+      "jen.NewFile* only in fileManager.Get with the converter's package path/name, documented default locations, @cwd paths made absolute. "
+      "All-paths statements about the generator; the goldens only sample layouts.",
+      "Not decided: the path arithmetic (relative/parent/absolute), package-name inference and jennifer's normalisation; well-formedness of merged files (C01). "
+      "Trusted: os/filepath semantics, list of FS mutators in checker/cfiles.go.",
+      "static analysis: who-may-call over resolved callees, SSA dominance of the package comparison, AST wiring of paths/modes/defaults")
+
+claim("C16",
+      "Decides the wiring that the property depends on: generated-code header then //go:build + unmodified constraint (guarded only by != \"\") on every created file before it is stored; "
+      "complementary flag defaults evaluated semantically with go/build/constraint; flag -> config -> loader/header field wiring not swapped; both packages.Load sites pass -tags with the unmodified tag string.",
+      "Not decided: that go list skips constrained files and hence the recovery consequence itself (trusted). Trusted: jennifer places HeaderComment before the package clause.",
+      "static analysis: SSA must-pass-through on the file-creating path, constant evaluation of flag defaults, composite-literal wiring, sibling agreement of the two loaders")
+
+claim("C17",
+      "Proof of the structural theorem formed by obligations O1-O7 (see evidence.explanation): no file-system mutation can happen unless every selected converter was generated, and every error arm of cli.Run "
+      "prints to stderr and exits 1, help exits 0. Each obligation is discharged mechanically on /repo's current SSA/AST on every run (who-may-call, dominance, must-pass-through, error-flow path search); "
+      "obligations == discharged is required for exit 0.",
+      "Trusted base: go/ssa + go/types of x/tools v0.29.0, the list of FS mutators and exit functions in checker/cfiles.go, documented semantics of os.WriteFile/MkdirAll/os.Exit. "
+      "Not proved: partial writes when the OS fails mid-way (outside the property's quantifier); go list does not write into the user's tree.",
+      "static analysis: who-may-call + SSA dominance / must-pass-through / error-flow path search (structural proof over the call graph)", level="proof")
+
+claim("C18",
+      "Who-may-emit analysis: every import-producing emission (jen.Qual) is classified by the origin of its package path; literals are allowed only at audited (function, package) pairs under their gating arms; "
+      "no reflect/unsafe constant in any emission argument; top-level declarations are limited to raw text, comment, empty struct, init and functions; method bodies reach the file only as function blocks; "
+      "no go/defer/select/goto/recover emission. Decides that no emission site of the generator can add a forbidden import or package-level state, for all inputs.",
+      "Not decided: imports forced by the user's own types (reflect.Type / unsafe.Pointer fields), content of output:raw, jennifer adding exactly the imports of the Qual calls (trusted). "
+      "Audited table: literalQualAllowed in checker/c18.go.",
+      "static analysis: enumeration and origin classification of jennifer emission chains (AST + types)")
+
 NOT_APPLICABLE_REASON = "rules for this property are designed (DESIGN.md §2) but the checker code is not built yet in this round; not claimed until it runs"
 
 def main():
